@@ -6,7 +6,11 @@ Necessary structural conditions (conversion values and code-point ordering are n
       result is cmp(op0, op1); with three it is cmp(op0, op1) AND cmp(op1, op2) —
       the second comparison sits under the true edge of the first, the false
       edge yields the constant false; the operands reach the comparator
-      untouched (index plumbing only, no conversion in between);
+      untouched (both arguments of every comparator application are elements of
+      the operand list: index plumbing only, no conversion in between) — the
+      comparator and the function applying it are found through path summaries
+      under the constant arguments of the forwarding calls (fn item, closure,
+      enum constant dispatched by a method);
   K2  sibling agreement of the four comparators: each converts both operands with
       the shared to-primitive (number hint) and then, per pair of primitive kinds
       (variant specialisation, 4 cases): String×String → string ordering of the
@@ -16,6 +20,7 @@ Necessary structural conditions (conversion values and code-point ordering are n
       and the same relational operator in all four cases, and that operator is
       the one the table name says (< Lt, <= Le, > Gt, >= Ge), operands in order;
       no comparator calls abstract equality or negates a sibling (NaN cases);
+      no ordering decision on the 64-bit integer readings of a JSON number;
   K3  to-primitive with number hint: Null → 0, Bool → 1/0 by payload, Number →
       as_f64, String/Array/Object → no number (string form is used);
   K4  the shared string→number conversion (A3 and ES structure, as in C07 K4).
@@ -59,24 +64,155 @@ def operand_index(b, e, vecp):
     return None
 
 
-def comparator_sites(facts, body, vecp):
-    """Calls of a (&Value,&Value)→bool callable in `body`: [(bi, callee key or 'param', (i, j))]."""
+CMP_SIG = ["&serde_json::Value", "&serde_json::Value"]
+PLUMBING = re.compile(r"^<std::vec::Vec<T, A> as std::ops::(Index<I>|Deref)>::(index|deref)$|^std::vec::Vec::<T, A>::(len|get|first|as_slice|is_empty)$|^core::slice::<impl \[T\]>::(get|len|first|is_empty|split_first|split_at|iter)$"
+                      r"|^core::option::Option::<.*>::(copied|cloned)$|^std::option::Option::<.*>::(copied|cloned)$|^<.* as std::ops::Try>::branch$")
+
+
+def _is_cmp_sig(facts, key):
+    it = facts.items.get(key, {})
+    return it.get("output") == "bool" and it.get("inputs") == CMP_SIG
+
+
+def _callable_key(e):
+    """Key of the function an expression denotes: a fn item, or a closure that captures nothing."""
+    e = strip_refs(e)
+    if e[0] == "const" and isinstance(e[1], dict) and "fn" in e[1]:
+        return (e[1]["fn"].get("resolved") or e[1]["fn"]).get("key")
+    if e[0] == "agg" and e[1].get("agg") == "Closure" and not e[2]:
+        return e[1].get("closure")
+    return None
+
+
+def _const_like(e):
+    """An argument a callee can be read under: fn item, closure without captures, payload-free enum constant, literal."""
+    x = strip_refs(e)
+    if x[0] == "const":
+        return True
+    if x[0] == "agg" and not x[2] and (x[1].get("variant") is not None or x[1].get("agg") == "Closure"):
+        return True
+    return False
+
+
+def _is_vec(e, vecp):
+    e = strip_refs(e)
+    while e[0] == "call" and e[1] and re.search(r"Deref>::deref$|::as_slice$|AsRef<.*>>::as_ref$", e[1]["path"]) and e[2]:
+        e = strip_refs(e[2][0])
+    return e == ("arg", vecp)
+
+
+def applied_comparator(facts, ev, depth=0):
+    """(comparator key | 'param', first, second) when the call event `ev` (rules/pathsum.py) applies one
+    (&Value, &Value) → bool function to two of its arguments, in that order — directly, through a callable
+    (Fn::call / fn pointer) that is a constant on the path, or through private wrappers read under their constant
+    arguments (every path of the wrapper returns that one application on two of its parameters).  None otherwise."""
+    from . import pathsum
+    c, args = ev[1], ev[2]
+    if c is None:
+        if len(args) != 2:
+            return None
+        k = _callable_key(ev[4]) if len(ev) > 4 and ev[4] is not None else None
+        if k is None:
+            return ("param", args[0], args[1])
+        return _through(facts, k, [args[0], args[1]], depth)
+    if c["path"].startswith("std::ops::Fn") and c["path"].endswith("::call") and len(args) == 2:
+        tup = strip_refs(args[1])
+        if not (tup[0] == "agg" and tup[1].get("agg") == "Tuple" and len(tup[2]) == 2):
+            return None
+        k = _callable_key(args[0])
+        if k is None:
+            return ("param", tup[2][0], tup[2][1])
+        fb = facts.body(k)
+        if fb is not None and fb.kind == "closure":
+            r = _through(facts, k, [args[0], tup[2][0], tup[2][1]], depth)
+        else:
+            r = _through(facts, k, [tup[2][0], tup[2][1]], depth)
+        return r
+    if c.get("local"):
+        return _through(facts, c["key"], list(args), depth)
+    return None
+
+
+def _through(facts, key, args, depth):
+    from . import pathsum
+    if _is_cmp_sig(facts, key) and len(args) == 2:
+        return (key, args[0], args[1])
+    body = facts.body(key)
+    if body is None or depth > 3:
+        return None
+    if body.kind != "closure" and facts.items.get(key, {}).get("output") != "bool":
+        return None
+    env = {i + 1: a for i, a in enumerate(args) if _const_like(a)}
+    w = pathsum.summarize(body, env=env, max_paths=300)
+    if w.overflow or not w.paths or any(p.truncated for p in w.paths):
+        return None
+    got = set()
+    for p in w.paths:
+        r = strip_refs(p.result) if p.result is not None else ("none",)
+        if r[0] != "call":
+            return None
+        ev2 = next((e for e in p.events if e[3] == r[3] and e[1] is r[1]), ("call", r[1], r[2], r[3]))
+        a = applied_comparator(facts, ev2, depth + 1)
+        if a is None:
+            return None
+        x, y = strip_refs(a[1]), strip_refs(a[2])
+        if x[0] != "arg" or y[0] != "arg" or not (1 <= x[1] <= len(args)) or not (1 <= y[1] <= len(args)):
+            return None
+        got.add((a[0], x[1], y[1]))
+    if len(got) != 1:
+        return None
+    k, i, j = got.pop()
+    if k == "param":
+        return None
+    return (k, args[i - 1], args[j - 1])
+
+
+def single_operand_conversions(facts, host):
+    """Crate functions to which `host` (or one of its closures) hands one JSON value — in a function that receives
+    nothing but the operand list these are conversions of single operands."""
     out = []
-    for bi, t in body.calls():
-        c = callee_of(t)
-        if c is None:
-            continue
-        if c["path"].startswith("std::ops::Fn") and c["path"].endswith("::call") and len(t["args"]) == 2:
-            tup = strip_refs(body.trace(t["args"][1]))
-            if tup[0] == "agg" and tup[1].get("agg") == "Tuple" and len(tup[2]) == 2:
-                out.append((bi, "param", (operand_index(body, tup[2][0], vecp), operand_index(body, tup[2][1], vecp))))
-        elif c["local"] and facts.items.get(c["key"], {}).get("output") == "bool" and facts.items[c["key"]].get("inputs") == ["&serde_json::Value", "&serde_json::Value"]:
-            out.append((bi, c["key"], (operand_index(body, t["args"][0], vecp), operand_index(body, t["args"][1], vecp))))
-    # calls through a `fn(&Value, &Value) -> bool` pointer parameter
-    for bi, t in body.calls():
-        if callee_of(t) is None and len(t["args"]) == 2 and re.search(r"fn\(&(?:'\w+ )?serde_json::Value, &(?:'\w+ )?serde_json::Value\) -> bool", t.get("fty") or ""):
-            out.append((bi, "param", (operand_index(body, t["args"][0], vecp), operand_index(body, t["args"][1], vecp))))
+    bodies = [host] + [b_ for b_ in facts.fns() if b_.kind == "closure" and b_.key.startswith(host.key + "::{closure")]
+    for b_ in bodies:
+        for bi, t in b_.calls():
+            c = callee_of(t)
+            if not c or not c.get("local"):
+                continue
+            ins = facts.items.get(c["key"], {}).get("inputs") or []
+            if len([i for i in ins if i.endswith("serde_json::Value")]) == 1 and not _is_cmp_sig(facts, c["key"]):
+                out.append((b_, bi, c["path"]))
     return out
+
+
+def find_host(facts, b, vecp):
+    """(host body, operand-list parameter, parameter bindings, comparator keys, reason): the function in which the
+    operator applies its comparator to operands, reached from the table function through calls that hand the
+    operand list on."""
+    from . import pathsum
+    host, env = b, {}
+    for _ in range(4):
+        w = pathsum.summarize(host, env=env, max_paths=3000)
+        keys = set()
+        fw = {}
+        for p in w.paths:
+            for ev in p.events:
+                a = applied_comparator(facts, ev)
+                if a is not None:
+                    keys.add(a[0])
+                    continue
+                c = ev[1]
+                if c and c.get("local") and facts.body(c["key"]) is not None:
+                    idx = [i for i, x in enumerate(ev[2]) if _is_vec(x, vecp)]
+                    if idx:
+                        fw[(c["key"], ev[3])] = (ev, idx[0])
+        if keys:
+            return host, vecp, env, keys, ""
+        if len(fw) != 1:
+            conv = single_operand_conversions(facts, host)
+            return None, None, None, set(), ("conv", host, conv) if conv else "neither compares operands nor hands its operand list to one helper (%d candidates)" % len(fw)
+        (key, _), (ev, i) = next(iter(fw.items()))
+        env = {j + 1: x for j, x in enumerate(ev[2]) if _const_like(x)}
+        host, vecp = facts.body(key), i + 1
+    return None, None, None, set(), "the comparator is applied more than four calls away from the table function"
 
 
 def run(ctx):
@@ -98,37 +234,25 @@ def run(ctx):
             b, e = roles.fn_of(op)
             acc = e.accepted()
             ctx.check(acc == (2, 3) and e.table.role == "eager", "K1.arity", "%s takes two or three evaluated operands (%s)" % (op, cfg), "%s accepts %s operands in the %s table" % (op, acc, e.table.role), where=b.where(), fn=b.key)
-            # the body that applies the comparator: the bound fn itself or a forwarding helper
-            host, vecp, cmp_key = b, (2 if b.kind == "closure" else 1), None
-            sites = comparator_sites(facts, host, vecp)
-            if not sites:
-                fw = [(bi, t) for bi, t in b.calls() if callee_of(t) and callee_of(t)["local"]]
-                ctx.need(len(fw) == 1, "%s neither compares nor forwards to one helper" % op)
-                bi, t = fw[0]
-                host = facts.body(callee_of(t)["key"])
-                # which argument is the operand vector, which the comparator
-                for i, a in enumerate(t["args"]):
-                    c = op_const(a)
-                    if c is None:
-                        ta = strip_refs(b.trace(a))
-                        c = ta[1] if ta[0] == "const" else None
-                    if c and "fn" in c:
-                        cmp_key = (c["fn"].get("resolved") or c["fn"])["key"]
-                    elif strip_refs(b.trace(a)) == ("arg", vecp):
-                        hv = i + 1
-                vecp = hv
-                sites = comparator_sites(facts, host, vecp)
-                extra = [callee_path(tt) for _, tt in host.calls() if callee_of(tt) is not None and not (callee_path(tt) in (INDEX_PATH, "std::vec::Vec::<T, A>::len", "core::slice::<impl [T]>::get", "core::slice::<impl [T]>::len", "core::slice::<impl [T]>::first", "<std::vec::Vec<T, A> as std::ops::Deref>::deref") or (callee_path(tt) or "").startswith("std::ops::Fn"))]
-                ctx.check(not extra, "K1.untouched", "%s: operands reach the comparator untouched (%s)" % (op, cfg), "the between helper also calls %s — operands are converted before the adjacent comparisons" % extra, where=host.where(), fn=host.key, nontrivial=True)
-            else:
-                keys = {s[1] for s in sites}
-                ctx.need(len(keys) == 1, "%s uses several comparators" % op)
-                cmp_key = keys.pop()
+            # the body that applies the comparator (the *between host*): the bound function itself or the private function
+            # it hands its operand list to, read with the constant arguments of the forwarding call bound to the
+            # callee's parameters (a comparator fn item, a closure, a payload-free enum constant that a `match` in a
+            # method turns into the comparator) — see find_host / applied_comparator
+            host, vecp, henv, keys, why = find_host(facts, b, (2 if b.kind == "closure" else 1))
+            if host is None and isinstance(why, tuple):
+                # no two-operand comparator is applied where the operand list arrives; the operands are handed one by
+                # one to conversions there: they do not reach a comparator untouched
+                _, hb, conv = why
+                ctx.fail("K1.untouched", "%s: operands reach the comparator untouched (%s)" % (op, cfg), "%s applies no (value, value) comparator to its operands; %s hands single operands to %s — the operands are converted outside the adjacent comparisons" % (op, hb.key.split("::", 1)[1], sorted({c_ for _, _, c_ in conv})), where=conv[0][0].where(conv[0][1]), fn=hb.key)
+                continue
+            ctx.need(host is not None, "%s: %s" % (op, why))
+            ctx.need(len(keys) == 1, "%s uses several comparators: %s" % (op, sorted(keys, key=str)))
+            cmp_key = next(iter(keys))
             ctx.need(cmp_key and cmp_key != "param", "%s: comparator function not identified" % op)
             comparators[op] = facts.body(cmp_key)
             # between shape, read off the path summaries of the host (rules/pathsum.py): for either operand count and
             # every outcome of the adjacent comparisons, each feasible path returns cmp(op0,op1) [&& cmp(op1,op2)]
-            between_by_paths(ctx, facts, host, vecp, cmp_key, op, cfg)
+            between_by_paths(ctx, facts, host, vecp, cmp_key, op, cfg, env=henv)
         # ---------------- K2
         mats = {}
         for op, f in comparators.items():
@@ -180,9 +304,9 @@ def run(ctx):
                           sample={"kind": v, "conversion": sorted(got)})
 
 
-def between_by_paths(ctx, facts, host, vecp, cmp_key, op, cfg):
+def between_by_paths(ctx, facts, host, vecp, cmp_key, op, cfg, env=None):
     from . import pathsum
-    w = pathsum.summarize(host)
+    w = pathsum.summarize(host, env=env)
     ctx.need(not w.overflow and w.paths and not any(p.truncated for p in w.paths), "%s: the between host has loops or too many paths to summarise" % op)
 
     def is_vec(e):
@@ -213,18 +337,26 @@ def between_by_paths(ctx, facts, host, vecp, cmp_key, op, cfg):
             return ("variant", "Some" if n > c else "None")
         return None
 
+    touched = {}
+    unread_ops = {}
+
+    def operand_of(e):
+        """n when e is the n-th operand itself; otherwise record whether it is a converted operand or unreadable."""
+        n = operand_index(host, e, vecp)
+        if n is None:
+            x = strip_payload(strip_refs(e))
+            conv = []
+            expr_mentions(x, lambda y: y[0] == "call" and y[1] is not None and not PLUMBING.search(y[1]["path"]) and expr_mentions(y, lambda z: z == ("arg", vecp)) and not conv.append(y[1]["path"]))
+            (touched if conv else unread_ops)[show_expr(x)[:90]] = conv
+        return n
+
     def cmp_pair(ev):
+        a = applied_comparator(facts, ev)
+        if a is None:
+            return None
         c = ev[1]
-        if c is None and len(ev[2]) == 2:
-            # call through a comparator pointer: identified by its operands
-            return (operand_index(host, ev[2][0], vecp), operand_index(host, ev[2][1], vecp)), ("site", ev[3])
-        if c is not None and c["path"].startswith("std::ops::Fn") and c["path"].endswith("::call") and len(ev[2]) == 2:
-            tup = strip_refs(ev[2][1])
-            if tup[0] == "agg" and tup[1].get("agg") == "Tuple" and len(tup[2]) == 2:
-                return (operand_index(host, tup[2][0], vecp), operand_index(host, tup[2][1], vecp)), ("pure", pathsum.canon(("call", c, ev[2], ev[3])))
-        if c is not None and c.get("local") and facts.items.get(c["key"], {}).get("output") == "bool" and facts.items[c["key"]].get("inputs") == ["&serde_json::Value", "&serde_json::Value"] and len(ev[2]) == 2:
-            return (operand_index(host, ev[2][0], vecp), operand_index(host, ev[2][1], vecp)), ("site", ev[3])
-        return None
+        atom = ("site", ev[3]) if (c is None or c.get("local")) else ("pure", pathsum.canon(("call", c, ev[2], ev[3])))
+        return (operand_of(a[1]), operand_of(a[2])), atom
 
     def value_of(e, assign, sitepairs):
         e = strip_payload(strip_refs(e))
@@ -289,9 +421,27 @@ def between_by_paths(ctx, facts, host, vecp, cmp_key, op, cfg):
                         bad.append("%d operands, cmp(op0,op1)=%s%s: returns %s" % (n, x01, "" if n == 2 else ", cmp(op1,op2)=%s" % x12, got))
                 if not hits:
                     bad.append("%d operands, cmp(op0,op1)=%s: no path" % (n, x01))
-    ctx.check(pairs_seen <= {(0, 1), (1, 2)} and (0, 1) in pairs_seen and (1, 2) in pairs_seen, "K1.three-operand", "%s compares exactly (op0,op1) and (op1,op2) (%s)" % (op, cfg),
+    # the operands reach the comparator untouched: both arguments of every application are elements of the operand
+    # list themselves (index / get / first plumbing only) — stated on the arguments' provenance, not on which
+    # functions the host calls
+    for txt, conv in sorted(touched.items()):
+        ctx.fail("K1.untouched", "%s|%s (%s)" % (op, ",".join(sorted(set(c_.rsplit("::", 1)[-1] for c_ in conv))), cfg), "%s compares %s: the operand is converted (%s) before the adjacent comparisons" % (op, txt, ", ".join(sorted(set(conv)))), where=host.where(), fn=host.key)
+    for txt in sorted(unread_ops):
+        ctx.unread("K1.untouched", "%s (%s)" % (op, cfg), "an argument of the comparator is not readable as an element of the operand list: %s" % txt, where=host.where(), fn=host.key)
+    if not touched and not unread_ops:
+        ctx.ok("K1.untouched", "%s: operands reach the comparator untouched (%s)" % (op, cfg), nontrivial=True)
+    incomplete = bool(touched or unread_ops)
+    if incomplete:
+        pairs_seen = {pr for pr in pairs_seen if None not in pr}
+    if unread_ops and not touched:
+        if not pairs_seen <= {(0, 1), (1, 2)}:
+            ctx.fail("K1.three-operand", "%s compares exactly (op0,op1) and (op1,op2) (%s)" % (op, cfg), "%s compares the operand pairs %s" % (op, sorted(pairs_seen, key=str)), where=host.where(), fn=host.key)
+        return
+    ctx.check(pairs_seen <= {(0, 1), (1, 2)} and (incomplete or ((0, 1) in pairs_seen and (1, 2) in pairs_seen)), "K1.three-operand", "%s compares exactly (op0,op1) and (op1,op2) (%s)" % (op, cfg),
               "%s compares the operand pairs %s" % (op, sorted(pairs_seen, key=str)), where=host.where(), fn=host.key, nontrivial=True, sample={"operator": op, "pairs": sorted(pairs_seen, key=str)})
-    ctx.need(not unread, "%s: result of the between host not readable as a boolean of the adjacent comparisons: %s" % (op, unread[:2]))
+    if unread:
+        ctx.unread("K1.conjunction", "%s (%s)" % (op, cfg), "result of the between host not readable as a boolean of the adjacent comparisons: %s" % unread[:2], where=host.where(), fn=host.key)
+        return
     ctx.check(not bad, "K1.conjunction", "%s: cmp(op0,op1) with two operands, cmp(op0,op1) && cmp(op1,op2) with three — on every path (%s)" % (op, cfg),
               "the operator does not compute the (conjunction of the) adjacent comparisons: %s" % "; ".join(bad[:4]), where=host.where(), fn=host.key, nontrivial=True)
 
@@ -504,6 +654,22 @@ def comparator_matrix(ctx, facts, roles, f, s2n, op, cfg):
             pth = callee_path(t) or ""
             if re.search(r"::(encode_utf16|to_lowercase|to_uppercase|to_ascii_lowercase|to_ascii_uppercase|eq_ignore_ascii_case)$", pth):
                 ctx.fail("K2.code-point-order", "%s|%s" % (op, pth.rsplit("::", 1)[1]), "the comparator for %s re-encodes or case-maps its strings (%s): strings must be compared by code point" % (op, pth), where=bb.where(bi), fn=bb.key)
+    # numbers are compared as the doubles they convert to: no ordering decision in the comparator's own code is taken on
+    # the 64-bit integer readings of a JSON number (distinct integers above 2^53 convert to the same double)
+    def _int_reading(bb, o):
+        return expr_mentions(bb.trace(o), lambda y: y[0] == "call" and y[1] is not None and re.search(r"^serde_json::Number::as_(i64|u64|i128|u128)$", y[1]["path"]) is not None)
+    for bk in sorted(own):
+        bb = facts.body(bk)
+        if bb is None:
+            continue
+        for bi, t in bb.calls():
+            pth = callee_path(t) or ""
+            full = (callee_of(t) or {}).get("full") or ""
+            if re.search(r"(PartialOrd|Ord).*::(cmp|partial_cmp|lt|le|gt|ge|max|min)$", pth) and re.search(r"<[iu](64|128) as | for [iu](64|128)>", full + " " + pth) and any(_int_reading(bb, a) for a in t["args"]):
+                ctx.fail("K2.numeric-domain", "%s|%s" % (op, bk.split("::", 1)[1]), "the comparator for %s orders JSON numbers by their 64-bit integer readings (%s on as_i64/as_u64): operands must be compared as the doubles they convert to" % (op, full), where=bb.where(bi), fn=bb.key)
+        for bi, si, st in bb.stmts():
+            if st["k"] == "Assign" and st["rv"]["k"] == "BinaryOp" and st["rv"]["op"] in ("Lt", "Le", "Gt", "Ge", "Eq", "Ne", "Cmp") and re.match(r"^[iu](64|128)$", st["rv"].get("opty") or "") and (_int_reading(bb, st["rv"]["a"]) or _int_reading(bb, st["rv"]["b"])):
+                ctx.fail("K2.numeric-domain", "%s|%s" % (op, bk.split("::", 1)[1]), "the comparator for %s orders JSON numbers by their 64-bit integer readings (%s on %s): operands must be compared as the doubles they convert to" % (op, st["rv"]["op"], st["rv"]["opty"]), where=bb.where(bi, si), fn=bb.key)
     groups = {}
     for conds, v, p in cases:
         kinds = {}
